@@ -1077,7 +1077,13 @@ def _env(a, c):
         return NOTHING
     if s not in c.env and not s.startswith("JAWK_VF_"):
         raise Unspecified("environment variable outside the fixed environment")
-    return c.env.get(s, NOTHING)
+    v = c.env.get(s, NOTHING)
+    if isinstance(v, str):
+        try:
+            v.encode("utf-8")
+        except UnicodeEncodeError:
+            return NOTHING      # a value that is not valid UTF-8 cannot be a JSON string: nothing
+    return v
 
 
 @fn("parse")
